@@ -647,7 +647,7 @@ func (e *absEnv) call(fn *ssa.Function, args []aval, free []aval, depth int) ava
 					fr.regs[t] = aunk{"unop " + t.Op.String()}
 				}
 			case *ssa.BinOp:
-				fr.regs[t] = e.binop(t.Op, e.val(fr, t.X), e.val(fr, t.Y))
+				fr.regs[t] = wrapInt(e.binop(t.Op, e.val(fr, t.X), e.val(fr, t.Y)), t.Type())
 			case *ssa.Store:
 				p, ok := e.val(fr, t.Addr).(aptr)
 				if !ok {
@@ -806,6 +806,29 @@ func (e *absEnv) doCall(fr *absFrame, c *ssa.CallCommon, depth int) aval {
 			case anil:
 				return aint(0)
 			}
+		case "copy":
+			dst, ok := e.val(fr, c.Args[0]).(avals)
+			if !ok {
+				return aunk{"copy into " + describeAval(e.val(fr, c.Args[0]))}
+			}
+			var src []aval
+			switch s := e.val(fr, c.Args[1]).(type) {
+			case avals:
+				for _, cl := range s.cells {
+					src = append(src, e.cellVal(cl))
+				}
+			case anil:
+			default:
+				return aunk{"copy from " + describeAval(s)}
+			}
+			n := len(src)
+			if len(dst.cells) < n {
+				n = len(dst.cells)
+			}
+			for i := 0; i < n; i++ {
+				e.store(dst.cells[i], "", src[i])
+			}
+			return aint(n)
 		case "append":
 			var cells []*aobj
 			var elem types.Type = types.Typ[types.Invalid]
@@ -1038,7 +1061,34 @@ func (e *absEnv) convert(t *ssa.Convert, x aval) aval {
 		}
 		return mkStr(all)
 	}
-	return x
+	return wrapInt(x, to)
+}
+
+// wrapInt reduces a concrete integer to the range of a sized integer type (uint16 arithmetic wraps at 65536).
+func wrapInt(v aval, t types.Type) aval {
+	n, ok := v.(aint)
+	if !ok {
+		return v
+	}
+	b, ok := underlying(t).(*types.Basic)
+	if !ok {
+		return v
+	}
+	switch b.Kind() {
+	case types.Uint8:
+		return aint(uint8(n))
+	case types.Uint16:
+		return aint(uint16(n))
+	case types.Uint32:
+		return aint(uint32(n))
+	case types.Int8:
+		return aint(int8(n))
+	case types.Int16:
+		return aint(int16(n))
+	case types.Int32:
+		return aint(int32(n))
+	}
+	return v
 }
 
 // globalInit: a package-level variable of the module whose only store in the whole program is, in its package's
